@@ -134,15 +134,15 @@ Section DBIterErrFacts.
   Notation run_ := (de_run c p C chstep chobs cherr seq strict).
 
   Lemma de_error_sticky fuel s e m : de_err s = Some e -> move_ fuel s m = DEOk s false.
-  Proof. intros H. unfold de_move. rewrite H. reflexivity. Qed.
+  Proof. intros H. unfold de_move, de_move_with. rewrite H. reflexivity. Qed.
 
   Definition ddead_out (e : ierr) : eout bytes bytes := mkEO false None false (Some e).
 
   Theorem de_error_stops fuel s e ms : de_err s = Some e ->
     run_ fuel s (map CMove ms) = Some (map (fun _ => ddead_out e) ms).
   Proof.
-    intros H. induction ms as [|m ms IH]; [reflexivity|]. cbn [map de_run].
-    rewrite (de_error_sticky fuel s e m H), IH.
+    intros H. unfold de_run in *. induction ms as [|m ms IH]; [reflexivity|]. cbn [map de_run_with].
+    fold (de_move c p C chstep chobs cherr seq strict). rewrite (de_error_sticky fuel s e m H), IH.
     unfold de_out, de_kv, de_valid, de_dead, ddead_out. rewrite H. reflexivity.
   Qed.
 
@@ -152,8 +152,8 @@ Section DBIterErrFacts.
     destruct ms as [|m ms]; [reflexivity|].
     destruct (de_err s) as [e|] eqn:E.
     - apply (de_error_stops fuel (de_release s) e (m :: ms)). exact E.
-    - cbn [map de_run err_after_release]. unfold de_move at 1. cbn [de_release de_err de_released]. rewrite E.
-      rewrite (de_error_stops fuel _ EReleased ms) by reflexivity.
+    - unfold de_run. cbn [map de_run_with err_after_release]. unfold de_move_with at 1. cbn [de_release de_err de_released]. rewrite E.
+      fold (de_run c p C chstep chobs cherr seq strict). rewrite (de_error_stops fuel _ EReleased ms) by reflexivity.
       unfold de_out, de_kv, de_valid, de_dead, ddead_out. cbn. reflexivity.
   Qed.
 
@@ -175,10 +175,13 @@ Section DBIterErrFacts.
     | None => True
     end.
   Proof.
-    intros He Hr. unfold de_move. rewrite He, Hr.
-    assert (G : forall r, de_post cherr s r = DEOk s' false ->
+    intros He Hr. unfold de_move, de_move_with. rewrite He, Hr.
+    assert (G : forall r, de_post chobs cherr s r = DEOk s' false ->
               match cherr (d_child (de_base s')) with Some e => exists e', de_err s' = Some e' | None => True end).
     { intros r. unfold de_post. destruct r as [b [|]| |]; try discriminate.
+      { destruct (is_some (chobs (d_child b))); [discriminate|].
+        destruct (cherr (d_child b)) as [e|] eqn:Ec; [|discriminate]. intros H; injection H as <-.
+        cbn [de_base de_err set_err d_child]. rewrite Ec. eexists; reflexivity. }
       destruct (d_err b) eqn:Eb.
       - intros H. injection H as <-. cbn. destruct (cherr (d_child b)); eauto.
       - destruct (cherr (d_child b)) as [e|] eqn:Ec; intros H; injection H as <-;
